@@ -22,6 +22,7 @@ func (e *Engine) newChan(t types.Type, cap int, site string) *ChanV {
 	}
 	o.N = e.tb.Int(0)
 	o.Closed = e.tb.False
+	o.Bag = e.bagChans && cap > 1
 	return &ChanV{[]RefAlt{{G: e.tb.True, Obj: o}}}
 }
 
@@ -171,7 +172,7 @@ func (e *Engine) chanSend(c *ChanV, v Value, pos token.Pos) {
 			continue
 		}
 		en := e.sendEnabled(a.Obj)
-		if en.IsFalse() && e.hasPending() {
+		if !en.IsTrue() && e.hasPending() {
 			e.fireAllPending()
 			en = e.sendEnabled(a.Obj)
 		}
@@ -205,7 +206,7 @@ func (e *Engine) chanRecv(c *ChanV, et types.Type, pos token.Pos) (Value, *Term)
 			continue
 		}
 		en := e.recvEnabled(a.Obj)
-		if en.IsFalse() && e.hasPending() {
+		if !en.IsTrue() && e.hasPending() {
 			e.fireAllPending()
 			en = e.recvEnabled(a.Obj)
 		}
@@ -248,15 +249,19 @@ func (e *Engine) chanClose(c *ChanV, pos token.Pos) {
 	}
 }
 
-// selectStmt evaluates a select in sequential mode.
+// selectStmt evaluates a select in sequential mode (channel operands may be unions of channels).
 func (e *Engine) selectStmt(fr *Frame, x *ssa.Select) Value {
 	tb := e.tb
 	if e.threads != nil {
 		return e.threads.selectStmt(e, fr, x)
 	}
 	n := len(x.States)
+	type chAlt struct {
+		g   *Term
+		obj *Object
+	}
 	type st struct {
-		obj  *Object
+		alts []chAlt
 		send Value
 		en   *Term
 		et   types.Type
@@ -266,48 +271,38 @@ func (e *Engine) selectStmt(fr *Frame, x *ssa.Select) Value {
 		for i, s := range x.States {
 			cv := e.operand(fr, s.Chan).(*ChanV)
 			sts[i].et = s.Chan.Type().Underlying().(*types.Chan).Elem()
-			if len(cv.Alts) != 1 {
-				// union of channels in a select: take enabledness as the guarded union, operate on merged? keep simple
-				var only *Object
-				cnt := 0
-				for _, a := range cv.Alts {
-					if tb.And(e.G, a.G).IsFalse() {
-						continue
-					}
-					only = a.Obj
-					cnt++
+			sts[i].alts = nil
+			en := tb.False
+			for _, a := range cv.Alts {
+				if a.Obj == nil || tb.And(e.G, a.G).IsFalse() {
+					continue
 				}
-				if cnt != 1 {
-					panic(e.unsupported("select on a union of %d channels", cnt))
+				sts[i].alts = append(sts[i].alts, chAlt{a.G, a.Obj})
+				if s.Dir == types.SendOnly {
+					en = tb.Or(en, tb.And(a.G, e.sendEnabled(a.Obj)))
+				} else {
+					en = tb.Or(en, tb.And(a.G, e.recvEnabled(a.Obj)))
 				}
-				sts[i].obj = only
-			} else {
-				sts[i].obj = cv.Alts[0].Obj
 			}
+			sts[i].en = en
 			if s.Dir == types.SendOnly {
 				sts[i].send = e.operand(fr, s.Send)
-			}
-			if sts[i].obj == nil {
-				sts[i].en = tb.False
-			} else if s.Dir == types.SendOnly {
-				sts[i].en = e.sendEnabled(sts[i].obj)
-			} else {
-				sts[i].en = e.recvEnabled(sts[i].obj)
 			}
 		}
 	}
 	compute()
-	anyEn := tb.False
-	for i := range sts {
-		anyEn = tb.Or(anyEn, sts[i].en)
+	anyEnabled := func() *Term {
+		r := tb.False
+		for i := range sts {
+			r = tb.Or(r, sts[i].en)
+		}
+		return r
 	}
-	if x.Blocking && anyEn.IsFalse() && e.hasPending() {
+	anyEn := anyEnabled()
+	if x.Blocking && !anyEn.IsTrue() && e.hasPending() {
 		e.fireAllPending()
 		compute()
-		anyEn = tb.False
-		for i := range sts {
-			anyEn = tb.Or(anyEn, sts[i].en)
-		}
+		anyEn = anyEnabled()
 	}
 	if x.Blocking {
 		e.wouldBlock("select may block", x.Pos(), tb.Not(anyEn))
@@ -326,7 +321,6 @@ func (e *Engine) selectStmt(fr *Frame, x *ssa.Select) Value {
 		}
 	} else {
 		pick := e.freshInt("select", 0, int64(n-1))
-		// enabled[pick]
 		enPick := tb.False
 		for i := range sts {
 			enPick = tb.Or(enPick, tb.And(tb.Eq(pick, tb.Int(int64(i))), sts[i].en))
@@ -347,23 +341,27 @@ func (e *Engine) selectStmt(fr *Frame, x *ssa.Select) Value {
 		exit = tb.And(G0, tb.Not(anyEn))
 	}
 	for i, s := range x.States {
-		g := tb.And(G0, sel[i])
 		var rv Value
 		if s.Dir != types.SendOnly {
 			rv = e.zero(sts[i].et)
 		}
-		if !g.IsFalse() {
+		for _, a := range sts[i].alts {
+			ga := tb.And(sel[i], a.g)
+			g := tb.And(G0, ga)
+			if g.IsFalse() {
+				continue
+			}
 			e.G = g
 			if s.Dir == types.SendOnly {
-				e.enqueue(sts[i].obj, sts[i].send, s.Pos)
+				e.enqueue(a.obj, sts[i].send, s.Pos)
 			} else {
-				v, ok := e.dequeue(sts[i].obj, sts[i].et)
-				rv = e.iteVal(sel[i], v, rv)
-				recvOk = tb.Ite(sel[i], ok, recvOk)
+				v, ok := e.dequeue(a.obj, sts[i].et)
+				rv = e.iteVal(ga, v, rv)
+				recvOk = tb.Ite(ga, ok, recvOk)
 			}
-			idx = tb.Ite(sel[i], tb.Int(int64(i)), idx)
 			exit = tb.Or(exit, e.G)
 		}
+		idx = tb.Ite(sel[i], tb.Int(int64(i)), idx)
 		if s.Dir != types.SendOnly {
 			results = append(results, rv)
 		}
